@@ -634,4 +634,13 @@ def run(tier: str, seed: int) -> list[Part]:
                      "is not one of its result columns (invalid SQL)")
     p22.wall_s = time.time() - t0
     parts.append(p22)
+    t0 = time.time()
+    kf23 = run_tlc("MC_Sql.tla", "SqlKF23.cfg", expect_violation=True, heap="3g")
+    if kf23.violated != "CompileTotal":
+        raise MachineryError(f"companion SqlKF23 (Deduplication branch as at the pinned commit) no longer violates CompileTotal (got {kf23.violated})")
+    p23 = Part(name="sqlprogram:F23-companion", cfg="SqlKF23.cfg", states=max(kf23.distinct, 1), transitions=max(kf23.generated, 1))
+    p23.notes.append("with the pinned-commit rule TLC re-derives F23: sort, projection dropping the sort column, deduplication compile to "
+                     "SELECT DISTINCT ... ORDER BY <column that is not selected>")
+    p23.wall_s = time.time() - t0
+    parts.append(p23)
     return parts
